@@ -85,6 +85,28 @@ Section Drivers.
     | None => (s, Failed false)
     end.
 
+  (** the write phase of the parallel [-i] drivers as the code has it since the repair of the vanished-file defect: first
+      every backup ([make_backups]), then every file.  A copy that fails (the file is gone) ends the run with the
+      backups made so far and no file rewritten. *)
+  Fixpoint backup_all (paths : list text) (fs : fsys) : fsys * bool :=
+    match paths with
+    | [] => (fs, true)
+    | p :: rest =>
+      match fs_get fs p with
+      | Some ob => backup_all rest (fs_put fs (backup_path (T "bak") p) ob)
+      | None => (fs, false)
+      end
+    end.
+  Fixpoint write_all (l : list (text * text)) (fs : fsys) : fsys :=
+    match l with [] => fs | (p, t) :: rest => write_all rest (fs_put fs p (FText t)) end.
+  Definition emit_two_phase (l : list (text * text)) (s : dstate) : result :=
+    if do_backup o then
+      match backup_all (map fst l) (d_fs s) with
+      | (fs1, true) => (mkD (write_all l fs1) (d_out s), Done)
+      | (fs1, false) => (mkD fs1 (d_out s), Failed false)
+      end
+    else (mkD (write_all l (d_fs s)) (d_out s), Done).
+
   Definition fail_of {A} (x : outcome A) : status :=
     match x with Panic _ => Failed true | _ => Failed false end.
 
